@@ -191,6 +191,10 @@ where
     let mut table_preps: Vec<(CircuitTableAir<SC, D>, usize)> =
         Vec::with_capacity(base_prep.len() + non_primitive_base.len());
 
+    // Slots that already received their Const/Public creator row: a further Const/Public row
+    // on the same slot (aliased constants / public inputs) is a reader with multiplicity -1.
+    let mut created_slots: hashbrown::HashSet<usize> = hashbrown::HashSet::new();
+
     #[allow(clippy::needless_range_loop)]
     for idx in 0..base_prep.len() {
         let table = PrimitiveOpType::from(idx);
@@ -329,7 +333,11 @@ where
                     let out_wid =
                         (<Val<SC> as PrimeField64>::as_canonical_u64(&out_idx) as usize) / D;
                     let n_reads = preprocessed.ext_reads.get(out_wid).copied().unwrap_or(0);
-                    prep_2col.push(<Val<SC>>::from_u32(n_reads));
+                    prep_2col.push(if created_slots.insert(out_wid) {
+                        <Val<SC>>::from_u32(n_reads)
+                    } else {
+                        <Val<SC>>::ZERO - <Val<SC>>::ONE
+                    });
                     prep_2col.push(out_idx);
                 }
 
@@ -355,7 +363,11 @@ where
                 for &out_idx in &base_prep[idx] {
                     let out_wid = out_idx.as_canonical_u64() as usize / D;
                     let n_reads = preprocessed.ext_reads.get(out_wid).copied().unwrap_or(0);
-                    prep_2col.push(<Val<SC>>::from_u32(n_reads));
+                    prep_2col.push(if created_slots.insert(out_wid) {
+                        <Val<SC>>::from_u32(n_reads)
+                    } else {
+                        <Val<SC>>::ZERO - <Val<SC>>::ONE
+                    });
                     prep_2col.push(out_idx);
                 }
 
